@@ -361,6 +361,71 @@ let check_kcprune ~id sf sg s0 s1 (log : Sexp.t list) (pts : Sexp.t list) : unit
      | _ -> result id "OK" "skipped" "")
 (* x-kprune end ------------------------------------------------------------------------------------------------ *)
 
+(* x-kelim begin -----------------------------------------------------------------------------------------------
+   infeasible_elimination for K = 4 (case kind kelim; two-row predicates, labels 0..3).  Deciding: the tree after is
+   equivalent to the tree before for all inputs modulo certified-thin cells (C03_kelim_preserves); evaluate() on points;
+   a panic is a violation.  Mirror: Pwl/KElim.v's kelim replayed with the logged LP / mirror answers by call number,
+   compared EXACTLY with the dumped result (elimination keeps the arena index of every surviving node): indices, leaf
+   flags, functions, cached states, child slots, and both call counters.  The same replay is run on every binary
+   elimination case (K = 2, counters kelim2_...), where KElimBin.v proves it equal to Elim.v. *)
+let replay_kelim ~id ~pre (b : itree) (a : itree) (log : Sexp.t list) : unit =
+  let lps = List.filter_map (function List (Atom "lp" :: _ :: _ :: st :: _) -> Some (lpans_of st) | _ -> None) log in
+  let mirs = List.filter_map (function
+      | List [Atom "mir"; _; _; _; Atom "none"] -> Some None
+      | List [Atom "mir"; _; _; _; List [Atom "some"; m; _]] -> Some (Some (mat_of m))
+      | _ -> None) log in
+  let fuel arena = nat_of_int (List.length arena + 1) in
+  let ab = arena_of b and aa = arena_of a in
+  let rt t = nat_of_int (match t.root with Some r -> r | None -> 0) in
+  let arity = (match b.nodes with nd :: _ -> List.length nd.children | [] -> 0) in
+  match kabs (fuel ab) ab (rt b), kabs (fuel aa) aa (rt a) with
+  | Some kb, Some ka ->
+    let (res, k) = kelim (oracle_of_logs lps mirs) tol (nat_of_int arity) kb in
+    let used_all = (int_of_nat k.k_lp = List.length lps && int_of_nat k.k_mir = List.length mirs) in
+    if ktree_eqb res ka && used_all then bump (pre ^ "_mirror_agree")
+    else if ktree_eqb res ka then bump (pre ^ "_mirror_agree_tree_only")
+    else (bump (pre ^ "_mirror_mismatch");
+          result id "MIRROR" "kelim-model" "Pwl/KElim.v's kelim replayed with the logged LP / mirror answers differs from the dumped result");
+    (* statistics: did a decision get forwarded?  with arity + 1 the test infeasible == K - 1 never holds *)
+    let rec ndec = function KU -> 0 | KN (_, leaf, _, _, ch) -> (if leaf then 0 else 1) + List.fold_left (fun a c -> a + ndec c) 0 ch in
+    let (res', _) = kelim (oracle_of_logs lps mirs) tol (nat_of_int (arity + 1)) kb in
+    if ndec res <> ndec res' then bump (pre ^ "_forwarded")
+  | _ -> bump (pre ^ "_mirror_not_a_tree")
+let check_kelim ~id gen sb oc sa (log : Sexp.t list) sa2 (pts : Sexp.t list) : unit =
+  bump "kelim"; bump ("kelim_" ^ gen);
+  log_stats log;
+  let b = itree_of sb in
+  let n = b.in_dim in
+  match ptree_of b with
+  | None -> result id "ERR" "abs" "operand arena is not a tree"
+  | Some pb ->
+    if ptree_has_u pb then bump "partial";
+    if oc = "panic" then
+      (if mode = "c03" then result id "VIOL" "panic" "infeasible_elimination (K = 4) panicked" else result id "OK" "skipped" "")
+    else begin
+      let a = itree_of sa in
+      if List.length a.nodes < List.length b.nodes then (bump "nontrivial"; bump "kelim_nontrivial");
+      bump_by "nodes_removed" (List.length b.nodes - List.length a.nodes);
+      if List.exists (fun nd -> nd.nstate <> Indet) b.nodes then bump "kelim_warm_start";
+      match mode with
+      | "c03" ->
+        (match ptree_of a with
+         | None -> result id "VIOL" "abs" "result arena is not a tree"
+         | Some pa ->
+           (try replay_kelim ~id ~pre:"kelim" b a log with Nonfinite -> bump "kelim_mirror_nonfinite");
+           let ok1 = equiv_mod_thin ~id ~tag:"kelim-preserves" n pa pb in
+           let ok2 = points_check ~id ~tag:"evaluate" pa pts in
+           let ok3 = (match sa2 with
+               | Atom "panic" -> result id "VIOL" "panic" "a second infeasible_elimination (K = 4) panicked"; false
+               | s2 ->
+                 (match ptree_of (itree_of s2) with
+                  | None -> result id "VIOL" "abs" "arena after the second run is not a tree"; false
+                  | Some p2 -> equiv_mod_thin ~id ~tag:"kelim-preserves" n p2 pb)) in
+           if ok1 && ok2 && ok3 then result id "OK" "kelim" "")
+      | _ -> result id "OK" "skipped" ""
+    end
+(* x-kelim end ------------------------------------------------------------------------------------------------- *)
+
 let check (case : Sexp.t) : unit =
   match case with
   | List [Atom "case"; Atom id; Atom "elim"; Atom gen; sb; Atom oc; sa; counter; List (Atom "log" :: log); sa2; counter2; List (Atom "pts" :: pts)] ->
@@ -386,6 +451,7 @@ let check (case : Sexp.t) : unit =
             | Some pa ->
               (try replay_elim b a log with Nonfinite -> bump "mirror_nonfinite");
               (* x-aelim *) (try replay_aelim ~id b a log with Nonfinite -> bump "aelim_arena_nonfinite");
+              (* x-kelim *) (try replay_kelim ~id ~pre:"kelim2" b a log with Nonfinite -> bump "kelim2_mirror_nonfinite");
               let ok1 = equiv_mod_thin ~id ~tag:"elim-preserves" n pa pb in
               let ok2 = points_check ~id ~tag:"evaluate" pa pts in
               if ok1 && ok2 then result id "OK" "elim" "")
@@ -446,6 +512,9 @@ let check (case : Sexp.t) : unit =
            | _ -> result id "VIOL" "abs" "an arena is not a tree")
         | "c05" -> count_states h1; if cache_ok ~id ~tag:"cache" h1 then result id "OK" "cache" ""
         | _ -> result id "OK" "skipped" ""))
+  (* x-kelim: infeasible_elimination of an AffTree<4> *)
+  | List [Atom "case"; Atom id; Atom "kelim"; Atom gen; sb; Atom oc; sa; _counter; List (Atom "log" :: log); sa2; _counter2; List (Atom "pts" :: pts)] ->
+    check_kelim ~id gen sb oc sa log sa2 pts
   (* x-kprune: pruned composition of AffTree<4> operands *)
   | List [Atom "case"; Atom id; Atom "kcprune"; sf; sg; s0; s1; List (Atom "log" :: log); List (Atom "pts" :: pts)] ->
     check_kcprune ~id sf sg s0 s1 log pts
